@@ -334,6 +334,56 @@ func ruleEqShapeBody(c *Ctx, b *Body) {
 	default:
 		l.add("R-EQSHAPE", b.Name, key, b.rel(eq.Pos()), Discharged, fmt.Sprintf("%d branch conditions, each computed from the operands (and constants) only", nIf), true)
 	}
+	// (Q6) operands are classified only through the node's own methods (the container probes,
+	// isNull, compact), the recursion, len, bytes.Equal and the decoder. A free-standing
+	// predicate over an operand's raw text (the root dispatch's first-byte test, say) disagrees
+	// with the probes on the text `null`, which the probes turn into a nil array.
+	{
+		var alien []string
+		seenV := map[ssa.Value]bool{}
+		var scan func(v ssa.Value, at string)
+		scan = func(v ssa.Value, at string) {
+			if v == nil || seenV[v] {
+				return
+			}
+			seenV[v] = true
+			switch x := v.(type) {
+			case *ssa.BinOp:
+				scan(x.X, at)
+				scan(x.Y, at)
+			case *ssa.UnOp:
+				if x.Op == token.NOT {
+					scan(x.X, at)
+				}
+			case *ssa.Phi:
+				for _, e := range x.Edges {
+					scan(e, at)
+				}
+			case *ssa.Call:
+				f := x.Call.StaticCallee()
+				if f == nil {
+					return
+				}
+				if f.Pkg == b.Lib && f.Signature.Recv() == nil {
+					s := a.sidesOf(x)
+					if s["N"] || s["O"] {
+						alien = append(alien, fname(f)+" at "+at)
+					}
+				}
+			}
+		}
+		for _, bb := range eq.Blocks {
+			if iff, ok := bb.Instrs[len(bb.Instrs)-1].(*ssa.If); ok {
+				scan(iff.Cond, b.posOf(iff))
+			}
+		}
+		key := name + ": operands are classified only through the node's own probes"
+		if len(alien) > 0 {
+			l.add("R-EQSHAPE", b.Name, key, b.rel(eq.Pos()), Violated, "a branch of the comparison is decided by "+strings.Join(alien, ", ")+": a free-standing predicate over an operand, which need not agree with the container probes (the text null is an empty array to the probes and not an array to a first-byte test)", true)
+		} else {
+			l.add("R-EQSHAPE", b.Name, key, b.rel(eq.Pos()), Discharged, "no branch condition calls a free function of the library on operand data", true)
+		}
+	}
 	// wrappers (equal -> equalDepth): every other parameter of the role function is
 	// fed constants / the same parameter at the outermost call — not needed for the verdicts above.
 
